@@ -139,9 +139,11 @@ Fixpoint assoc_id (l : list (N * N)) (i : N) : option N :=
   end.
 Definition memN (x : N) (l : list N) : bool := existsb (N.eqb x) l.
 
-(** [execEntry] *)
+(** [execEntry]; an insert entry with id 0 ("no series": can only be the remains of a torn
+    append) is not indexed — the same filter is in [compactIndexTo]. *)
 Definition exec (ix : index) (e : sentry) : index :=
   if se_flag e =? FLAG_INS then
+    if se_id e =? 0 then ix else
     {| keyid := (se_key e, se_id e) :: keyid ix;
        idoff := (se_id e, se_off e) :: idoff ix;
        tombs := tombs ix |}
